@@ -19,6 +19,8 @@ def main():
     if a.replay:
         sys.exit(mod.replay(a.replay))
     run = common.Run(a.prop, a.tier, seed)
+    # every check starts from models regenerated from /repo's current working tree (never from a stale file)
+    common.regenerate([])
     try:
         mod.check(run)
     except Exception as e:  # a crash of the machinery must not pass silently
